@@ -3,9 +3,13 @@
  * supla_esp_recv_callback for GET) with the real vsnprintf and prints what espconn_sent received.
  * events:  CFG : <image A>   CFGB : <image B>   NAME : <dev_name>   MAC : <6 bytes>   ADD : <additional settings>
  *          STATE : <message>   RENDER <variant> <data_saved>   GET
+ *          FORMB : <request B>   FORM : <request A>   (POST of a form through the real supla_esp_recv_callback on a fresh
+ *                 connection: request A on image A, request B on image B; the saved images become the new images A and B)
  * outputs: PAGE <v> <ds> <alloc size> <truncated> : <header+page of image A>
  *          PAGEB ...                               : <the same for image B>
- *          GETPAGE 6 0 <alloc size> <truncated>   : <response to GET / with image A> */
+ *          GETPAGE 6 0 <alloc size> <truncated>   : <response to GET / with image A>
+ *          FPAGE <saved> <alloc size> <truncated> : <response to the POST of request A>     FPAGEB ... <of request B>
+ *          FCFG : <supla_esp_cfg after request A>    FCFGB : <after request B> */
 #include <string.h>
 #include <stdlib.h>
 #include <os_type.h>
@@ -50,8 +54,34 @@ static void render(const char *kind, const unsigned char *img, int v, int ds) {
   vout_hex("", sent, sent_n);
 }
 
+static int saves;
+static void on_flash(const char *op, unsigned addr, unsigned len) {
+  (void)len;
+  if (strcmp(op, "write") == 0 && addr == CFG_SECTOR * 4096u) saves++;
+}
+/* POST of one form through the real callbacks on a fresh connection; the image is updated to what was saved */
+static void post_form(const char *kind, const char *ckind, unsigned char *img, const unsigned char *req, int len) {
+  struct espconn conn; esp_tcp tcp; memset(&conn, 0, sizeof conn); memset(&tcp, 0, sizeof tcp);
+  conn.type = ESPCONN_TCP; conn.proto.tcp = &tcp;
+  memcpy(&supla_esp_cfg, img, sizeof(SuplaEspCfg));
+  supla_esp_connectcb(&conn);
+  c15_reset(); sent_n = 0; saves = 0;
+  char *seg = malloc(len ? len : 1); memcpy(seg, req, len);
+  supla_esp_recv_callback(&conn, seg, (unsigned short)len);
+  free(seg);
+  long sz = -1;
+  for (int k = 0; k < c15_nalloc; k++) if ((long)c15_allocs[k].n > sz) sz = (long)c15_allocs[k].n;
+  fprintf(stdout, "%s %d %ld %d : ", kind, saves ? 1 : 0, sz, c15_trunc);
+  vout_hex("", sent, sent_n);
+  memcpy(img, &supla_esp_cfg, sizeof(SuplaEspCfg));
+  fprintf(stdout, "%s : ", ckind); vout_hex("", img, sizeof(SuplaEspCfg));
+  supla_esp_discon_callback(&conn);
+}
+
 static void run_case(int n, char **lines) {
   static unsigned char buf[70000];
+  static unsigned char reqb[70000]; static int reqb_n = 0;
+  v_on_flash = on_flash;
   v_quiet = 1; v_on_sent = on_sent;
   for (int i = 0; i < n; i++) {
     char *l = lines[i];
@@ -63,6 +93,12 @@ static void run_case(int n, char **lines) {
     else if (strncmp(l, "MAC", 3) == 0) { memset(mac, 0, 6); memcpy(mac, buf, len < 6 ? len : 6); }
     else if (strncmp(l, "ADD", 3) == 0) { snprintf(c15_addsett, sizeof c15_addsett, "%s", (char *)buf); }
     else if (strncmp(l, "STATE", 5) == 0) { supla_esp_set_state(LOG_DEBUG, (char *)buf); }
+    else if (strncmp(l, "FORMB", 5) == 0) { memcpy(reqb, buf, len); reqb_n = len; }
+    else if (strncmp(l, "FORM", 4) == 0) {
+      if (len > 65535) len = 65535;
+      post_form("FPAGE", "FCFG", imgA, buf, len);
+      post_form("FPAGEB", "FCFGB", imgB, reqb, reqb_n > 65535 ? 65535 : reqb_n);
+    }
     else if (strncmp(l, "RENDER", 6) == 0) {
       int v = 0, ds = 0; sscanf(l + 6, "%d %d", &v, &ds);
       if (v < 0 || v > 6) continue;
